@@ -82,7 +82,7 @@ func runReactorParts(run *lib.Run) {
 		self, _ = os.Executable()
 	}
 	dir := lib.Scratch(prop + "-r")
-	defer os.RemoveAll(dir)
+	defer lib.RemoveLater(dir)
 	var wg sync.WaitGroup
 	for _, f := range families() {
 		n := f.total()
